@@ -70,76 +70,188 @@ def validate_replays(v, obs_path, behs, cfg="TraceSchedule.cfg"):
 
 
 def run(tier, v):
+    """The stages are independent of each other and run side by side (threads; TLC and the drivers are processes)."""
+    import threading
+    import c02_stress
+    import c02_bigleft
+    import c02_unbounded
     thorough = tier == "thorough"
-    states = trans = 0
-    # 1. design level
-    cfgs = (["Schedule_exh_flat.cfg", "Schedule_nested.cfg", "Schedule_exh3.cfg"] if thorough else ["Schedule_exh.cfg"])
-    for cfg in cfgs:
-        r = vlib.tlc("ScheduleMC", cfg, deadlock=False, timeout=3000, heap="24g", coverage=False)
-        vlib.tlc_must_pass(r, cfg)
-        states += r.distinct
-        trans += r.generated
-    for neg in ["Schedule_neg_leftbug.cfg", "Schedule_neg_norecheck.cfg", "Schedule_neg_unlearly.cfg", "Schedule_neg_ctorshift.cfg"]:
-        vlib.tlc_must_fail(vlib.tlc("ScheduleMC", neg, deadlock=False, timeout=600), neg)
-    # 2. M2: behaviours -> real code
+    T0 = time.time()
+    laps = {}
+
+    def lap(what):
+        laps[what] = round(time.time() - T0, 1)
+        vlib.log("C02 %-28s at %.1fs" % (what, time.time() - T0))
     b = vlib.harness_build()
     d = vlib.scratch()
-    nb = 3000 if thorough else 400
-    r = vlib.tlc("ScheduleMC", "Schedule_sim.cfg", workers=1, simulate="num=%d" % nb, depth=600, seed_=vlib.seed(),
-                 deadlock=False, timeout=1800)
-    if r.error or r.violation:
-        raise vlib.MachineryError("simulation failed: %s %s\n%s" % (r.kind, r.what, r.out[-2000:]))
-    behs = behaviours(r)
-    if len(behs) < nb * 0.9:
-        raise vlib.MachineryError("only %d behaviours exported" % len(behs))
-    vlib.write_ndjson(os.path.join(d, "beh.ndjson"), behs)
-    obs = os.path.join(d, "obs.ndjson")
-    vlib.run_driver(b, ["schedreplay", "-in", os.path.join(d, "beh.ndjson"), "-out", obs], timeout=1800)
-    validated, tstates = validate_replays(v, obs, behs)
-    distinct_beh = len({json.dumps([(e["c"], e["a"]) for e in bh["hist"]]) + tree_sig(bh["tree"]) + bh["tree"]["mode"] for bh in behs})
+    lap("harness built")
+    res, errors = {}, {}
+
+    def stage(name, fn):
+        def wrapped():
+            try:
+                res[name] = fn()
+            except BaseException as ex:  # noqa
+                errors[name] = ex
+            lap(name + " done")
+        t = threading.Thread(target=wrapped, name=name)
+        t.start()
+        return t
+
+    # 0. unbounded evidence (Apalache on SchedInd.tla + TLC on small shapes); never a verdict about the code
+    def unbounded():
+        return c02_unbounded.run(parallel=3 if thorough else 2)
+
+    # 1. design level
+    cfgs = (["Schedule_exh_flat.cfg", "Schedule_nested.cfg", "Schedule_exh3.cfg", "Schedule_nested3.cfg"] if thorough else ["Schedule_exh.cfg"])
+    NEGS = ["Schedule_neg_leftbug.cfg", "Schedule_neg_norecheck.cfg", "Schedule_neg_unlearly.cfg", "Schedule_neg_ctorshift.cfg"]
+
+    def design():
+        states = trans = 0
+        per = {}
+        negr = {}
+
+        def neg(cfg):
+            negr[cfg] = vlib.tlc("ScheduleMC", cfg, deadlock=False, timeout=900, workers=2, heap="2g")
+        nts = [threading.Thread(target=neg, args=(c,)) for c in NEGS]
+        [t.start() for t in nts]
+        for cfg in cfgs:
+            r = vlib.tlc("ScheduleMC", cfg, deadlock=False, timeout=3000, heap="24g" if thorough else "8g",
+                         workers=None if thorough else 8, coverage=thorough)
+            vlib.tlc_must_pass(r, cfg)
+            states += r.distinct
+            trans += r.generated
+            per[cfg] = {"distinct": r.distinct, "generated": r.generated, "wall_s": round(r.wall, 1)}
+            if thorough:
+                per[cfg]["actions_never_taken"] = uncovered_actions(r, cfg)
+        [t.join() for t in nts]
+        for cfg in NEGS:
+            vlib.tlc_must_fail(negr[cfg], cfg)
+        return {"states": states, "trans": trans, "per": per}
+
+    # 2. M2: behaviours -> real code
+    def replays():
+        nb = 3000 if thorough else 400
+        out = {"validated": 0, "tstates": 0, "behs": [], "families": {}}
+        fams = [("Schedule_sim.cfg", nb, "TraceSchedule.cfg", 600)]
+        if thorough:
+            fams.append(("Schedule_sim3n.cfg", 1500, "TraceSchedule.cfg", 900))     # 3 callers on the nested trees only, deeper walks
+        for i, (cfg, num, tcfg, depth) in enumerate(fams):
+            r = vlib.tlc("ScheduleMC", cfg, workers=1, simulate="num=%d" % num, depth=depth, seed_=vlib.seed(),
+                         deadlock=False, timeout=1800)
+            if r.error or r.violation:
+                raise vlib.MachineryError("simulation %s failed: %s %s\n%s" % (cfg, r.kind, r.what, r.out[-2000:]))
+            behs = behaviours(r)
+            if len(behs) < num * 0.9:
+                raise vlib.MachineryError("%s: only %d behaviours exported" % (cfg, len(behs)))
+            bp = os.path.join(d, "beh%d.ndjson" % i)
+            vlib.write_ndjson(bp, behs)
+            obs = os.path.join(d, "obs_f%d.ndjson" % i)
+            vlib.run_driver(b, ["schedreplay", "-in", bp, "-out", obs], timeout=1800)
+            fd = os.path.join(d, "fam%d" % i)
+            os.makedirs(fd)
+            obs2 = os.path.join(fd, "obs.ndjson")
+            os.rename(obs, obs2)
+            val, ts = validate_replays(v, obs2, behs, cfg=tcfg)
+            out["validated"] += val
+            out["tstates"] += ts
+            out["behs"] += behs
+            out["families"][cfg] = {"behaviours": len(behs), "validated": val}
+        out["distinct"] = len({json.dumps([(e["c"], e["a"]) for e in bh["hist"]]) + tree_sig(bh["tree"]) + bh["tree"]["mode"] for bh in out["behs"]})
+        return out
+
     # 3. M1: free-running stress
-    import c02_stress
-    st = c02_stress.run(tier, v, b, d)
+    def stress():
+        sd = os.path.join(d, "stress")
+        os.makedirs(sd)
+        return c02_stress.run(tier, v, b, sd)
+
     # 3b. M1: lazy start under contention (first Next() of a never-started doAt schedule)
-    lz = os.path.join(d, "lazy.ndjson")
-    ntrials = 1000000 if thorough else 200000
-    vlib.run_driver(b, ["schedlazy", "-out", lz, "-trials", str(ntrials)], timeout=1800)
-    tl = vlib.tlc("TraceLazyStart", "TraceLazyStart.cfg", env={"VERIF_TRACE": lz}, cont=True, timeout=1800, heap="8g")
-    if tl.error:
-        raise vlib.MachineryError("TraceLazyStart failed: %s\n%s" % (tl.kind, tl.out[-3000:]))
-    lrows = vlib.read_ndjson(lz)
-    if tl.distinct != len(lrows) + 1:
-        raise vlib.MachineryError("TraceLazyStart visited %d states for %d lines" % (tl.distinct, len(lrows)))
-    seen_l = set()
-    for inv, stt in tl.all_violations:
-        ln = int(stt.get("l", "0"))
-        if ln < 1 or (inv, ln) in seen_l:
-            continue
-        seen_l.add((inv, ln))
-        row = lrows[ln - 1]
-        badt = [t for t in row["trials"] if (row["kind"] == "once" and (t["ok"] != row["n"] or t["end"] != row["g"] or t["dist"] != 1)) or t["loneg"] or t["hineg"] or t["leftneg"] != t["leftall"] or (row["kind"] == "once" and t["leftend"] != 0) or (row["kind"] == "unl" and t["end"] != 0)][:3]
-        v.violation("lazystart kind=%s inv=%s n=%d" % (row["kind"], inv, row["n"]),
-                    "%s never Start()ed, %d goroutines released together: %s fails, e.g. trials %s" % ("once(%d)" % row["n"] if row["kind"] == "once" else "unlimited(1h)", row["g"], inv, badt),
-                    replay_obj={"kind": "lazy", "invariant": inv, "line": row}, replay_name="lazy_%d_%s.json" % (ln, inv))
+    def lazy():
+        lz = os.path.join(d, "lazy.ndjson")
+        ntrials = 1000000 if thorough else 120000
+        vlib.run_driver(b, ["schedlazy", "-out", lz, "-trials", str(ntrials)], timeout=1800)
+        tl = vlib.tlc("TraceLazyStart", "TraceLazyStart.cfg", env={"VERIF_TRACE": lz}, cont=True, timeout=1800, heap="8g", workers=4)
+        if tl.error:
+            raise vlib.MachineryError("TraceLazyStart failed: %s\n%s" % (tl.kind, tl.out[-3000:]))
+        lrows = vlib.read_ndjson(lz)
+        if tl.distinct != len(lrows) + 1:
+            raise vlib.MachineryError("TraceLazyStart visited %d states for %d lines" % (tl.distinct, len(lrows)))
+        seen_l = set()
+        for inv, stt in tl.all_violations:
+            ln = int(stt.get("l", "0"))
+            if ln < 1 or (inv, ln) in seen_l:
+                continue
+            seen_l.add((inv, ln))
+            row = lrows[ln - 1]
+            badt = [t for t in row["trials"] if (row["kind"] == "once" and (t["ok"] != row["n"] or t["end"] != row["g"] or t["dist"] != 1)) or t["loneg"] or t["hineg"] or t["leftneg"] != t["leftall"] or (row["kind"] == "once" and t["leftend"] != 0) or (row["kind"] == "unl" and t["end"] != 0)][:3]
+            v.violation("lazystart kind=%s inv=%s n=%d" % (row["kind"], inv, row["n"]),
+                        "%s never Start()ed, %d goroutines released together: %s fails, e.g. trials %s" % ("once(%d)" % row["n"] if row["kind"] == "once" else "unlimited(1h)", row["g"], inv, badt),
+                        replay_obj={"kind": "lazy", "invariant": inv, "line": row}, replay_name="lazy_%d_%s.json" % (ln, inv))
+        return {"lines": len(lrows), "trials": ntrials}
+
+    # 3c. M1: Left() bookkeeping beyond 32 bits (TraceLeftBig.tla)
+    def bigleft():
+        bd = os.path.join(d, "big")
+        os.makedirs(bd)
+        return c02_bigleft.run(tier, v, b, bd)
+
+    ths = [stage("design", design), stage("replay", replays), stage("stress", stress), stage("lazy", lazy), stage("bigleft", bigleft)]
+    if thorough:        # 7 SMT runs: too much CPU for the quick tier on a loaded machine
+        ths.append(stage("unbounded", unbounded))
+    else:
+        res["unbounded"] = {"status": "thorough tier only"}
+    [t.join() for t in ths]
+    for name in ("design", "replay", "stress", "lazy", "bigleft", "unbounded"):
+        if name in errors:
+            raise errors[name]
+    ds, rp, st, lzr, bl = res["design"], res["replay"], res["stress"], res["lazy"], res["bigleft"]
+    behs = rp["behs"]
     samples = [{"tree": tree_sig(bh["tree"]), "mode": bh["tree"]["mode"],
                 "steps": [[e["c"], e["a"], e["node"]] + ([e["ret"]] if e["ret"] else []) for e in bh["hist"][:14]]}
-               for bh in behs[:2]] + st["samples"][:2]
+               for bh in behs[:2]] + st["samples"][:2] + bl["samples"][:1]
     cov = {
-        "states": states, "transitions": trans,
-        "traces_validated_against_impl": validated + st["validated"] + len(lrows),
+        "states": ds["states"], "transitions": ds["trans"],
+        "traces_validated_against_impl": rp["validated"] + st["validated"] + lzr["lines"] + bl["lines"],
         "samples": samples,
-        "replayed_behaviours": len(behs), "distinct_replayed_behaviours": distinct_beh,
-        "replay_events_validated_states": tstates,
+        "replayed_behaviours": len(behs), "distinct_replayed_behaviours": rp["distinct"], "replay_families": rp["families"],
+        "replay_events_validated_states": rp["tstates"],
         "stress_runs": st["runs"], "stress_events": st["events"],
-        "lazy_start_trials": ntrials,
-        "negative_controls": ["leftbug", "norecheck", "unlearly", "ctorshift"],
-        "design_configs": cfgs,
+        "lazy_start_trials": lzr["trials"],
+        "big_left": {k: bl[k] for k in bl if k != "samples"},
+        "negative_controls": ["leftbug", "norecheck", "unlearly", "ctorshift", "TraceLeftBig_neg_wrap32"],
+        "design_configs": ds["per"],
+        "unbounded_evidence": res["unbounded"],
+        "stage_finished_at_s": laps,
         "exhaustive": False,
     }
     return "model_checking", cov, [
-        "exhaustive TLC bounds: 2 callers x 3 root calls, trees with <= 7 nodes / <= 3 tokens per leaf, clock 0..3",
+        "exhaustive TLC bounds: 2 callers x 3 root calls (3 callers x 2 calls in the thorough tier, also on nested trees), trees with <= 7 nodes / <= 3 tokens per leaf, clock 0..3; callers are symmetric (model values + SYMMETRY)",
         "replayed behaviours have no clock ticks (tick = 1 h in the real tree); real-time behaviour of unlimited parts is covered by the stress traces",
+        "Left() beyond 32 bits: totals up to 2^62 + rounding slack of the float count at exact-integer boundaries (ProfileMath tolerance 1 us); an int64 overflow of the total is outside the explored domain",
         "trusted: the replayer/recorder (harness/cmd/vdrive/sched*.go), the yield hooks being placed at the statements the spec names"]
+
+
+def uncovered_actions(r, cfg):
+    """-coverage 1 report of an exhaustive run: an action of Schedule.tla that was never taken means the configuration
+    does not exercise what it claims (machinery failure, not a verdict).  Returns the (allowed) never-taken list."""
+    import re
+    zero = []
+    for m in re.finditer(r"^<(\w+) line \d+, col \d+ to line \d+, col \d+ of module (\w+)>: (\d+):(\d+)", r.out, re.M):
+        name, mod, distinct, taken = m.group(1), m.group(2), int(m.group(3)), int(m.group(4))
+        if mod == "Schedule" and taken == 0:
+            zero.append(name)
+    zero = sorted(set(zero))
+    allowed = COVERAGE_ALLOWED_ZERO.get(cfg, set())
+    bad = [a for a in zero if a not in allowed]
+    if bad:
+        raise vlib.MachineryError("%s: actions never taken in the exhaustive run: %s (coverage 0 = the configuration does not "
+                                  "exercise the code path it is meant to)" % (cfg, bad))
+    return zero
+
+
+# actions that CANNOT fire in a configuration, with the reason (anything else at count 0 fails the machinery)
+COVERAGE_ALLOWED_ZERO = {}
 
 
 def replay(path, v):
@@ -159,6 +271,9 @@ def replay(path, v):
         obs = os.path.join(d, "obs.ndjson")
         vlib.run_driver(b, ["schedreplay", "-in", os.path.join(d, "beh.ndjson"), "-out", obs])
         validate_replays(v, obs, [beh])
+    elif obj.get("kind") == "bigleft":
+        import c02_bigleft
+        c02_bigleft.replay(obj, v, d)
     else:
         import c02_stress
         c02_stress.replay(obj, v, d)
